@@ -2,7 +2,7 @@
 // writes the number of body octets the request asks for.  Structure after harness/h2c33/engine.go (PING barriers).
 // input : [7 [step ...]] ; step = [1 sid n] request | [3 sid] RST_STREAM | [4 sid inc] WINDOW_UPDATE
 //                                | [5 v] SETTINGS_INITIAL_WINDOW_SIZE | [6 v] SETTINGS_MAX_FRAME_SIZE
-// output: per step the frames received in order: [0 sid len endStream] DATA | [1] SETTINGS ack | [2] GOAWAY/closed
+// output: per step the frames received in order: [0 sid len endStream contentOK] DATA | [1] SETTINGS ack | [2] GOAWAY/closed
 package main
 
 import (
@@ -29,6 +29,7 @@ type lev struct {
 	sid  int
 	n    int
 	es   bool
+	good bool
 }
 
 type lconn struct {
@@ -46,19 +47,25 @@ type lconn struct {
 func liveHandler(w http.ResponseWriter, r *http.Request) {
 	n, _ := strconv.Atoi(r.Header.Get("x-n"))
 	chunk := make([]byte, 70000)
+	off := 0
 	for n > 0 {
 		k := len(chunk)
 		if k > n {
 			k = n
 		}
+		for i := 0; i < k; i++ {
+			chunk[i] = byte((off + i) % 251) // position-dependent content: loss/duplication/reordering is visible
+		}
 		if _, err := w.Write(chunk[:k]); err != nil {
 			return
 		}
 		n -= k
+		off += k
 	}
 }
 
 func (cn *lconn) reader() {
+	offs := map[uint32]int{}
 	for {
 		f, err := cn.fr.ReadFrame()
 		if err != nil {
@@ -67,7 +74,15 @@ func (cn *lconn) reader() {
 		}
 		switch f := f.(type) {
 		case *h2.DataFrame:
-			cn.evs <- lev{kind: 0, sid: int(f.StreamID), n: len(f.Data()), es: f.StreamEnded()}
+			good := true
+			off := offs[f.StreamID]
+			for i, b := range f.Data() {
+				if b != byte((off+i)%251) {
+					good = false
+				}
+			}
+			offs[f.StreamID] = off + len(f.Data())
+			cn.evs <- lev{kind: 0, sid: int(f.StreamID), n: len(f.Data()), es: f.StreamEnded(), good: good}
 		case *h2.SettingsFrame:
 			if f.IsAck() {
 				cn.evs <- lev{kind: 1}
@@ -199,7 +214,7 @@ func liveRun(steps hv.L) hv.Val {
 		for _, e := range cn.cur {
 			switch e.kind {
 			case 0:
-				l = append(l, hv.L{hv.I(0), hv.I(e.sid), hv.I(e.n), hv.Bool(e.es)})
+				l = append(l, hv.L{hv.I(0), hv.I(e.sid), hv.I(e.n), hv.Bool(e.es), hv.Bool(e.good)})
 			case 1:
 				l = append(l, hv.L{hv.I(1)})
 			case 2:
